@@ -142,3 +142,40 @@ func afterWarmups[T any](r *ev.Run, scen string, cases []T, eval func(T) (obs, b
 	r.Eval(n)
 	r.Set("after_other_operations", map[string]any{"warm_ups": len(warmups), "cases_each": len(cases)})
 }
+
+// volume runs eval on n DISTINCT cases one after the other on the calling goroutine (from empty pools) and then
+// once more on the first tenth: anything that remembers arguments (memo, ring, index) meets more distinct values
+// than it has room for, and entries it has evicted meanwhile.  The replay of a failure re-runs the prefix.
+func volume[T any](r *ev.Run, scen string, n int, mk func(k int) T, eval func(T) (obs, bad string)) {
+	run := func(upto int) (string, string) {
+		emptySyncPools()
+		order := make([]int, 0, n+n/10)
+		for k := 0; k < n; k++ {
+			order = append(order, k)
+		}
+		for k := 0; k < n/10; k++ {
+			order = append(order, k)
+		}
+		for i, k := range order {
+			if i > upto {
+				break
+			}
+			obs, bad := eval(mk(k))
+			if bad != "" {
+				return obs, fmt.Sprintf("call %d of the series (distinct value #%d): %s", i, k, bad)
+			}
+		}
+		return "ok", ""
+	}
+	r.Scenario(scen, func(raw []byte) (string, string) { return run(unjson[int](raw)) })
+	if ReplayOnly {
+		return
+	}
+	obs, bad := run(n + n/10)
+	r.Eval(int64(n + n/10))
+	if bad != "" {
+		var upto int
+		fmt.Sscanf(bad, "call %d ", &upto)
+		r.Fail(scen, bad, upto, "every call judged on its own arguments", obs+" "+bad)
+	}
+}
